@@ -67,6 +67,8 @@ CONTAINERS = [
     ("binary", "gR = [11, 22 + (call {%s}), 33]"),
     ("nested-array", "gR = [[11, [call {%s}]], 33]"),
     ("stmt", "call {%s}"),
+    ("args-call", "gR = [11, [7, 8] call {%s}, 33]"),                 # no nil placeholder below the block: the caller's operand lies directly under it
+    ("args-call-nested", "gR = [[5, 6] call {[11, [7, 8] call {%s}]}, 33]"),
     ("if-then", "gR = [11, if (true) then {%s}, 33]"),
     ("in-loop", "{gR = [11, call {%s}, _x]} forEach [1, 2]"),
     ("in-handler", "gR = [11, try {throw 0} catch {call {%s}}, 33]"),
@@ -79,6 +81,11 @@ def systematic_cases():
         for dn, dtext in DIRTY:
             text = "gA = 1;\n" + (ctext % dtext) + ";\ndiag_log str [gA];"
             cases.append({"id": "sys-%s-%s" % (cn, dn), "text": text, "fam": "sys"})
+    # operand stacks higher than 2^16: a block entered while that many operands are pending (states are logged
+    # without the values: frame ids, bases, height)
+    big = ", ".join(["0"] * 66000)
+    cases.append({"id": "big-array-call", "text": "gR = [%s, call {1; 2}, 3];\ndiag_log str [count gR];" % big, "fam": "big", "compact": True})
+    cases.append({"id": "big-array-callw", "text": "gR = [%s, [4] call {_this; 2}];\ndiag_log str [count gR];" % big, "fam": "big", "compact": True})
     return cases
 
 
@@ -99,7 +106,7 @@ def opclass(op):
 
 
 def to_driver_case(c, slices=None):
-    d = {"id": c["id"], "trace": True, "conf": {"max_runtime_ms": 4000, "slice": c.get("slice", 0)},
+    d = {"id": c["id"], "trace": True, "compact": bool(c.get("compact")), "conf": {"max_runtime_ms": 60000 if c.get("compact") else 4000, "slice": c.get("slice", 0)},
          "runs": [{"scripts": c.get("scripts") or [{"name": "main", "text": c["text"], "suspend": c.get("suspend", False)}]}]}
     return d
 
@@ -109,7 +116,11 @@ def stack_events(evs):
     for e in evs:
         if e["e"] == "S":
             out.append({"e": "S", "id": e["id"], "k": e["k"], "ctx": min(e["ctx"], 12), "oc": opclass(e["op"]),
-                        "fids": e["fids"], "bases": e["bases"], "pos": e["pos"], "slots": e["slots"]})
+                        "fids": e["fids"], "bases": e["bases"], "pos": e["pos"], "slots": e["slots"],
+                        # frame completion: the completed frame was a plain block (no exit / error behaviour attached)
+                        "plain": e["k"] == "F" and (e.get("arg", 0) & 2) != 0})
+        elif e["e"] == "SC":      # compact state (very high operand stacks): no values, the height only
+            out.append({"e": "SC", "id": e["id"], "k": e["k"], "ctx": min(e["ctx"], 12), "oc": opclass(e["op"]), "fids": e["fids"], "bases": e["bases"], "n": e["n"]})
         elif e["e"] == "Crash":
             out.append(e)
     return out
@@ -122,7 +133,8 @@ def run(rep, tier, seed, replay):
     rep.assumptions += [
         "states are observed through the guarded H3 observer (before/after every instruction, after frame completion and error unwinding); frame identities from the guarded frame counter",
         "values are compared by their printed form (clipped to 60 chars)",
-        "the handler frame's own region after an unwind is not constrained (only enclosing regions are)",
+        "the handler frame's own region after an unwind is constrained in its top slot only (what a handler without a value of its own would yield)",
+        "the value a completed frame hands to its caller is judged for plain blocks (frames without exit / error behaviour, told by the guarded frame_done observation); loops and handlers compute their result in their behaviour",
     ]
     if replay:
         cases = [json.load(open(replay))["case"]]
@@ -207,6 +219,6 @@ def run(rep, tier, seed, replay):
         line = bad2[0]["line"] - 2
         around = ex2[0][1][max(0, line - 2):line + 1]
         texts = [sc["text"] for sc in case.get("scripts", [])] or [case["text"]]
-        rep.finding(key, "%s at %s in program: %s" % (b["why"], b["op"], " || ".join(t.replace("\n", " ") for t in texts)),
+        rep.finding(key, "%s at %s in program: %s" % (b["why"], b["op"], (" || ".join(t.replace("\n", " ") for t in texts))[:600]),
                     {"property": "C05", "key": key, "case": case, "states_around": around, "verdict": bad2})
         rep.found[key]["count"] += len(bs) - 1
